@@ -38,10 +38,13 @@ ASSUMPTIONS = [
 
 NAMES = ["NAME", "STATUS", "COUNT", "KIND", "WHEN", "FLAG"]
 CONSTS = ["X", "ACTIVE", "FINAL", "5", '"5"', "3.5", "true", "false", '"a b"', "x-y", "PASS", '"true"', '"a|b"', "false-positive", "null.reject", "vs.code",
-          '"007"', '"01"', "true_ish", "nullable"]  # (CONST[null] with REQ is unsatisfiable)
+          '"007"', '"01"', "true_ish", "nullable",
+          # words that float() understands, and text with a run of blanks (a grammar post-processor must not touch literals)
+          "INF", "Infinity", "NaN", "nan", "inf", "infinity", '"a  b"', '"BUILD  OK"', '"x   "']  # (CONST[null] with REQ is unsatisfiable)
 ENUMS = [["A", "B"], ["DRAFT", "FINAL"], ["DRAFT", "ACTIVE", "DEPRECATED"], ["PASS", "PASS_WITH_NOTES", "FAIL"], ["1", "10", "16"], ["1", "2", "4", "8"],
          ["true", "false"], ["null", "none"], ["a b", "c"], ["x-y", "a.b"], ["a|b", "c"], ["ACTIVE", "ACTIVATING"],
-         ['"01"', '"02"', '"12"'], ['"0755"', '"0644"'], ["false-positive", "true-negative"], ["null.reject", "vs.code", "ok"], ["1.0", "2.50"]]
+         ['"01"', '"02"', '"12"'], ['"0755"', '"0644"'], ["false-positive", "true-negative"], ["null.reject", "vs.code", "ok"], ["1.0", "2.50"],
+         ['"a  b"', "c"], ["inf", "nan", "ok"], ["Infinity", "NaN"]]
 DECIDERS = ([f"CONST[{c}]" for c in CONSTS] + ["ENUM[" + ",".join(e) + "]" for e in ENUMS]
             + ["TYPE[BOOLEAN]", "TYPE[NUMBER]", "DATE", "ISO8601"] * 3)
 CAL = ["2024-01-15", "2024-02-29", "2023-02-29", "2024-13-01", "2024-00-10", "2024-04-31", "0000-01-01", "9999-12-31", "1900-02-29", "2000-02-29"]
@@ -146,19 +149,27 @@ def check(case, root, with_tool):
 
     fields = [(f, ch) for f, ch in case["fields"]]
     sd = c12.api_schema(case["name"], fields)
-    text = GBNFCompiler().compile_schema(sd, include_envelope=False)
-    g, probs = gbnf.check(text)
+    from octave_mcp.integrations.llama_cpp import schema_to_gbnf
+    from octave_mcp.integrations.vllm import schema_to_vllm_grammar
+
+    # the grammar as the compiler writes it and as the two integration helpers hand it to an inference engine
+    sources = [("compiler", GBNFCompiler().compile_schema(sd, include_envelope=False)), ("llama_cpp", schema_to_gbnf(sd, include_envelope=False)),
+               ("vllm", schema_to_vllm_grammar(sd, include_envelope=False))]
     fails: dict = {}
     n_eval, n_nt, samples = 0, 0, []
-    if any(p[0] not in ("rule-name-charset",) for p in probs):
-        return [("C13:unlisted:grammar-malformed", f"grammar for plain names and non-REGEX chains is malformed: {probs[:3]} | {text!r}")], 0, 0, []
-    for fname, ch in fields:
+    for src, text in sources:
+      g, probs = gbnf.check(text)
+      if any(p[0] not in ("rule-name-charset",) for p in probs):
+        return [("C13:unlisted:grammar-malformed", f"[{src}] grammar for plain names and non-REGEX chains is malformed: {probs[:3]} | {text!r}")], 0, 0, []
+      for fname, ch in fields:
         kind = deciding(ch)
         rule = fname.lower()
+        if src != "compiler" and (kind not in ("CONST", "ENUM", "TYPE[BOOLEAN]") or text == sources[0][1]):
+            continue  # (the helpers' output is explored where the derivations are finite, and only when it differs from the compiler's text)
         if kind not in ("DATE", "ISO8601"):
-            if (fname, tuple(ch)) in _DONE and not with_tool:
+            if (src, fname, tuple(ch)) in _DONE and not with_tool:
                 continue
-            _DONE.add((fname, tuple(ch)))
+            _DONE.add((src, fname, tuple(ch)))
         derived, _ = derivations(g, rule, kind, case.get("seed", 0))
         chain = sd.fields[fname].pattern.constraints
         for line in derived:
@@ -193,8 +204,8 @@ def check(case, root, with_tool):
                 why = "crash"
                 det = f"derived line {line!r}: {e!r}"
             if why:
-                fails.setdefault(classify(kind, ch, line, why), det + f" | rule={text.splitlines()[[l.split(' ::=')[0] for l in text.splitlines()].index(rule)] if rule in [l.split(' ::=')[0] for l in text.splitlines()] else ''!r}")
-        if with_tool and derived:
+                fails.setdefault(classify(kind, ch, line, why), f"[{src}] " + det + f" | rule={text.splitlines()[[l.split(' ::=')[0] for l in text.splitlines()].index(rule)] if rule in [l.split(' ::=')[0] for l in text.splitlines()] else ''!r}")
+        if with_tool and derived and src == "compiler":
             # the same through octave_validate with the schema planted on the search path (first and last derivation)
             sdir = os.path.join(root, "specs", "schemas")
             os.makedirs(sdir, exist_ok=True)
